@@ -2,13 +2,17 @@
    No proofs here.
 
    Transcribed, statement by statement, from
-     excellent/functions/wrappers.go   MinAndMaxArgsCheck, NumArgsCheck, MinArgsCheck, OneNumberFunction,
+     excellent/functions/wrappers.go   MinAndMaxArgsCheck, NumArgsCheck, MinArgsCheck, OneArgFunction, TwoArgFunction,
+                                       ThreeArgFunction, OneTextFunction, TwoTextFunction, OneArrayFunction,
+                                       TwoArrayFunction, OneNumberFunction,
                                        TwoNumberFunction, TextAndIntegerFunction, InitialTextFunction,
                                        OneNumberAndOptionalIntegerFunction, ThreeIntegerFunction
      excellent/functions/builtin.go    Word, WordSlice, Field, TextSlice, Char, Repeat, Replace, Round, RoundUp,
                                        RoundDown, checkRoundingPlaces, Mod, Mean, Max, Min, Percent, FormatNumber,
                                        DateFromParts, TimeFromParts, DateTimeAdd, Array, Object, ExtractObject,
-                                       RegexMatch, ForEach   (+ the registrations in init())
+                                       RegexMatch, ForEach, Text, Number, Boolean, And, Or, If, Abs, Count, Default,
+                                       Join, Reverse, Sum, Concat, IsError, TextLength, TextCompare
+                                       (+ the registrations in init())
      excellent/functions/utils.go      extractWords;  utils/text.go TokenizeString, TokenizeStringByChars
      flows/routers/cases/tests.go      HasGroup
      excellent/operators/builtin.go    all operators (+ wrappers.go textualBinary, numericalBinary, numericalUnary)
@@ -25,6 +29,7 @@
      wclass          Unicode classes of wordTokenRegex  [\pM\pL\pN_']+|\pS  (1 = word character, 2 = symbol)
      regex_submatch  regexp.Compile("(?mi)"+pattern) + FindStringSubmatch (None = does not compile)
      ext_call        every registered function outside the modelled set (may return Panic: nothing is assumed)
+     frac_pow        Decimal.Pow on a non-integral power (the value only: the guards of operators.Exponent are modelled)
    Values of date/time kind are opaque (kind only); strings.Replace is re-implemented (str_replace);
    FormatCustom's digit grouping is not reproduced (format_number is compared on the kind of its result). *)
 From Coq Require Import ZArith NArith List Bool.
@@ -58,6 +63,29 @@ Definition min_max_args (min : nat) (max : Z) (f : list value -> res) (args : li
 
 Definition num_args (n : nat) := min_max_args n (Z.of_nat n).
 Definition min_args (n : nat) := min_max_args n (-1)%Z.
+
+Definition one_arg_function (f : value -> res) : list value -> res :=
+  num_args 1 (fun args => with_arg args 0 f).
+
+Definition two_arg_function (f : value -> value -> res) : list value -> res :=
+  num_args 2 (fun args => with_arg args 0 (fun a0 => with_arg args 1 (fun a1 => f a0 a1))).
+
+Definition three_arg_function (f : value -> value -> value -> res) : list value -> res :=
+  num_args 3 (fun args => with_arg args 0 (fun a0 => with_arg args 1 (fun a1 => with_arg args 2 (fun a2 => f a0 a1 a2)))).
+
+Definition one_text_function (f : text -> res) : list value -> res :=
+  num_args 1 (fun args => with_arg args 0 (fun a0 => do s <- to_text a0; f s)).
+
+Definition two_text_function (f : text -> text -> res) : list value -> res :=
+  num_args 2 (fun args => with_arg args 0 (fun a0 => do s1 <- to_text a0;
+                          with_arg args 1 (fun a1 => do s2 <- to_text a1; f s1 s2))).
+
+Definition one_array_function (f : list value -> res) : list value -> res :=
+  num_args 1 (fun args => with_arg args 0 (fun a0 => do items <- to_array a0; f items)).
+
+Definition two_array_function (f : list value -> list value -> res) : list value -> res :=
+  num_args 2 (fun args => with_arg args 0 (fun a0 => do x <- to_array a0;
+                          with_arg args 1 (fun a1 => do y <- to_array a1; f x y))).
 
 Definition one_number_function (f : dec -> res) : list value -> res :=
   num_args 1 (fun args => with_arg args 0 (fun a0 => do n <- to_number a0; f n)).
@@ -289,6 +317,9 @@ Definition mod_body (a b : dec) : res :=
   if dec_eqb b (Dec 0 0) then Ret VErr
   else match dec_mod a b with inr r => Ret (VNum r) | inl c => Panic c end.
 
+(* decimal.Zero is New(0, 1) *)
+Definition decimal_zero : dec := Dec 0 1.
+
 (* Mean(env, args...) *)
 Fixpoint sum_numbers (args : list value) (acc : dec) : conv dec :=
   match args with
@@ -297,7 +328,7 @@ Fixpoint sum_numbers (args : list value) (acc : dec) : conv dec :=
   end.
 
 Definition mean_body (args : list value) : res :=
-  do sum <- sum_numbers args (Dec 0 0);
+  do sum <- sum_numbers args decimal_zero;
   match dec_div sum (dec_of_Z (zlen args)) with inr q => Ret (VNum q) | inl c => Panic c end.
 
 (* Max / Min (env, values...) *)
@@ -434,6 +465,56 @@ Definition has_group_body (args : list value) : res :=
   with_arg args 1 (fun a1 => do group_uuid <- to_text a1;
   has_group_loop (S (length items)) items 0 group_uuid)).
 
+(* Text / Number / Boolean / IsError / Abs / Count / Default / If *)
+Definition text_fn (v : value) : res := do s <- to_text v; Ret (VText s).
+Definition number_fn (v : value) : res := do n <- to_number v; Ret (VNum n).
+Definition boolean_fn (v : value) : res := do b <- to_bool v; Ret (VBool b).
+Definition is_error_fn (v : value) : res := Ret (VBool (is_err v)).
+Definition abs_body (d : dec) : res := Ret (VNum (Dec (Z.abs (mant d)) (dexp d))).
+
+Definition count_fn (v : value) : res :=
+  match v with
+  | VNil => Ret (VNum decimal_zero)              (* XNumberZero = NewXNumber(decimal.Zero) *)
+  | VArray items => Ret (VNum (Dec (zlen items) 0))
+  | VObject _ props => Ret (VNum (Dec (zlen props) 0))
+  | _ => Ret VErr
+  end.
+
+Definition default_fn (v d : value) : res :=
+  match to_text v with
+  | Bad => Ret d
+  | Ok [] => Ret d
+  | Ok _ => Ret v
+  end.
+
+Definition if_fn (test v1 v2 : value) : res := do b <- to_bool test; Ret (if b then v1 else v2).
+
+(* And / Or (env, values...) *)
+Fixpoint and_fn (values : list value) : res :=
+  match values with
+  | [] => Ret (VBool true)
+  | v :: r => do b <- to_bool v; if b then and_fn r else Ret (VBool false)
+  end.
+
+Fixpoint or_fn (values : list value) : res :=
+  match values with
+  | [] => Ret (VBool false)
+  | v :: r => do b <- to_bool v; if b then Ret (VBool true) else or_fn r
+  end.
+
+(* Join(env, array, separator): array.Get(i) for i < Count *)
+Definition join_fn (a0 a1 : value) : res :=
+  do items <- to_array a0; do sep <- to_text a1; do parts <- texts_of items; Ret (VText (join sep parts)).
+
+Definition reverse_body (items : list value) : res := Ret (VArray (rev items)).
+Definition concat_body (x y : list value) : res := Ret (VArray (x ++ y)).
+Definition sum_body (items : list value) : res := do total <- sum_numbers items decimal_zero; Ret (VNum total).
+
+(* TextLength (runes), TextCompare (strings.Compare: byte order = code point order) *)
+Definition text_length_body (s : text) : res := Ret (VNum (Dec (zlen s) 0)).
+Definition text_compare_body (a b : text) : res :=
+  Ret (VNum (Dec (if text_eqb a b then 0 else if text_ltb a b then (-1) else 1)%Z 0)).
+
 (* ------------------------------------------------------------------------------------------------ *)
 (* the registry (init() of builtin.go / tests.go) and XFunction.Call *)
 
@@ -463,6 +544,22 @@ Definition call_simple (f : fname) : list value -> res :=
   | FExtractObject => min_args 2 extract_object_body
   | FRegexMatch => initial_text_function 1 2 regex_match_body
   | FHasGroup => min_max_args 2 3 has_group_body
+  | FText => one_arg_function text_fn
+  | FNumber => one_arg_function number_fn
+  | FBoolean => one_arg_function boolean_fn
+  | FAnd => min_args 1 and_fn
+  | FOr => min_args 1 or_fn
+  | FIf => three_arg_function if_fn
+  | FAbs => one_number_function abs_body
+  | FCount => one_arg_function count_fn
+  | FDefault => two_arg_function default_fn
+  | FJoin => two_arg_function join_fn
+  | FReverse => one_array_function reverse_body
+  | FSum => one_array_function sum_body
+  | FConcat => two_array_function concat_body
+  | FIsError => one_arg_function is_error_fn
+  | FTextLength => one_text_function text_length_body
+  | FTextCompare => two_text_function text_compare_body
   | FForEach => fun _ => NoFuel                    (* handled by [call] *)
   | FOther id => ext_call id
   end.
@@ -502,7 +599,52 @@ Definition call_function (f : fname) (args : list value) : res := call (length a
 Definition max_number_exponent : Z := 100000%Z.
 Definition exponent_out_of_range (e : Z) : bool := ((e <? - max_number_exponent) || (max_number_exponent <? e))%Z.
 
-Inductive binop := OConcat | OEq | ONeq | OAdd | OSub | OMul | ODiv | OLt | OLte | OGt | OGte.
+(* Decimal.Pow on a non-integral power (logarithm and exponential series of the library): not modelled *)
+Variable frac_pow : dec -> dec -> dec.
+
+(* Decimal.NumDigits (exact digit count; the library's float fast path can be off by one next to powers of ten),
+   Decimal.IsInteger, operators.numberMagnitude *)
+Definition num_digits (d : dec) : Z := zlen (digits (Z.abs_N (mant d))).
+Definition dec_is_integer (d : dec) : bool :=
+  if (0 <=? dexp d)%Z then true else (Z.rem (mant d) (10 ^ (- dexp d)) =? 0)%Z.
+Definition number_magnitude (d : dec) : Z := (num_digits d + Z.abs (dexp d))%Z.
+Definition max_fractional_power_digits : Z := 64%Z.
+Definition pow_precision_negative_exponent : Z := 16%Z.
+
+(* Decimal.PowBigInt for n >= 0: square-and-multiply with Decimal.Mul; the coefficients multiply and the exponents
+   add, so the result is (mant^n, dexp*n) and no intermediate exponent exceeds the final one in magnitude:
+   the library's Mul panics iff the final exponent leaves int32 *)
+Definition dec_pow_nat (a : dec) (n : Z) : option dec :=
+  if in_int32 (dexp a * n) then Some (Dec (mant a ^ n) (dexp a * n)) else None.
+
+(* Decimal.Pow *)
+Definition dec_pow (a b : dec) : res :=
+  if (mant a =? 0)%Z then Ret (VNum (Dec 0 0))                  (* 0 ^ anything: 0, or the zero value *)
+  else if (mant b =? 0)%Z then Ret (VNum (Dec 1 0))
+  else if negb (dec_is_integer b) then
+    (if (mant a <? 0)%Z then Ret (VNum (Dec 0 0)) else Ret (VNum (frac_pow a b)))
+  else
+    let n := dec_trunc b in
+    match dec_pow_nat a (Z.abs n) with
+    | None => Panic PExponent
+    | Some p =>
+        if (0 <=? n)%Z then Ret (VNum p)
+        else match dec_div_round (Dec 1 0) p pow_precision_negative_exponent with
+             | inr q => Ret (VNum q)
+             | inl c => Panic c
+             end
+    end.
+
+(* operators.Exponent *)
+Definition pow_body (a b : dec) : res :=
+  if exponent_out_of_range (dexp a * dec_trunc b) then Ret VErr
+  else if (mant b <? 0)%Z && exponent_out_of_range (num_digits a * dec_trunc b) then Ret VErr
+  else if negb (dec_is_integer b)
+          && ((max_fractional_power_digits <? number_magnitude a)%Z || (max_fractional_power_digits <? number_magnitude b)%Z)
+       then Ret VErr
+  else dec_pow a b.
+
+Inductive binop := OConcat | OEq | ONeq | OAdd | OSub | OMul | ODiv | OPow | OLt | OLte | OGt | OGte.
 
 Definition textual_binary (f : text -> text -> res) (a b : value) : res :=
   do t1 <- to_text a; do t2 <- to_text b; f t1 t2.
@@ -525,6 +667,7 @@ Definition eval_binop (op : binop) : value -> value -> res :=
   | ODiv => numerical_binary (fun a b =>
               if dec_eqb b (Dec 0 0) then Ret VErr
               else match dec_div a b with inr q => Ret (VNum q) | inl c => Panic c end)
+  | OPow => numerical_binary pow_body
   | OLt => numerical_binary (cmp_is (fun c => match c with Lt => true | _ => false end))
   | OLte => numerical_binary (cmp_is (fun c => match c with Gt => false | _ => true end))
   | OGt => numerical_binary (cmp_is (fun c => match c with Gt => true | _ => false end))
